@@ -170,8 +170,8 @@ func init() {
 	})
 	property(&Property{
 		ID:      "C11",
-		Rules:   []string{"MO", "AL-1", "PL-1", "PL-2", "PL-3", "PL-4", "SW-2", "FR-1", "OR-3", "AL-2", "GV-1", "SW-4", "NU-1"},
-		Explain: "GV-1: no library function other than a package initialiser writes a package-level variable. SW-4: no once-latch field is ever reassigned. NU-1: the name of an anonymous type is computed from the type object itself. OR-3: the used-type list does not depend on whether the schema was compiled before it was asked for. AL-2: slices handed out by getters (rule values, names, children, keys) are not filtered in place, stored into or sorted by their clients, so objects handed out earlier do not change under later calls. FR-1: no field of a long-lived object (API objects, compiled schema, constraints) and no package variable can hold a per-operation helper (validator tree, validators, example builder, collectors, checker state), so the bookkeeping of one operation cannot reach the next or a concurrent one. SW-2: in everything reachable from the API's load/compile/AddType steps, no object reached through a root's type table (the schema objects of added types, which every root they were added to shares) is written — taint analysis over SSA from MustType/Type/TypesList to stores and receiver-writing method calls; the allOf compiler's in-place expansion of added types is the recorded known finding K2. MO: every range over a Go map in the library (inventory on each run) is order-insensitive by construction (the body only inserts/deletes entries keyed by the iteration key, counts, calls functions that can neither panic nor write shared memory — decided by an effect summary over the call graph — or collects keys that are sorted before use) or is in the reviewed table with the reason why the order cannot reach a verdict, error code, position, AST or example; a reviewed loop whose exits/writes/effectful calls change is reported again. PL-1: no alias of a pooled buffer's storage is returned, stored or captured by a function that puts the buffer back (the Example() slice must not be overwritten by later calls). PL-2: every field of the pooled loader is assigned in reset(). PL-3: json.Document rewinds before and after Check/Len.",
+		Rules:   []string{"MO", "AL-1", "PL-1", "PL-2", "PL-3", "PL-4", "SW-2", "FR-1", "OR-3", "AL-2", "GV-1", "SW-4", "NU-1", "FS-1"},
+		Explain: "FS-1: no long-lived object keeps a foreign (standard library / third party) object that the library changes by the methods it calls on it — write effects computed over the dependency's own SSA; the cached regex example generator whose random source advanced with every Example() was found by this reading and is fixed. GV-1: no library function other than a package initialiser writes a package-level variable. SW-4: no once-latch field is ever reassigned. NU-1: the name of an anonymous type is computed from the type object itself. OR-3: the used-type list does not depend on whether the schema was compiled before it was asked for. AL-2: slices handed out by getters (rule values, names, children, keys) are not filtered in place, stored into or sorted by their clients, so objects handed out earlier do not change under later calls. FR-1: no field of a long-lived object (API objects, compiled schema, constraints) and no package variable can hold a per-operation helper (validator tree, validators, example builder, collectors, checker state), so the bookkeeping of one operation cannot reach the next or a concurrent one. SW-2: in everything reachable from the API's load/compile/AddType steps, no object reached through a root's type table (the schema objects of added types, which every root they were added to shares) is written — taint analysis over SSA from MustType/Type/TypesList to stores and receiver-writing method calls; the allOf compiler's in-place expansion of added types is the recorded known finding K2. MO: every range over a Go map in the library (inventory on each run) is order-insensitive by construction (the body only inserts/deletes entries keyed by the iteration key, counts, calls functions that can neither panic nor write shared memory — decided by an effect summary over the call graph — or collects keys that are sorted before use) or is in the reviewed table with the reason why the order cannot reach a verdict, error code, position, AST or example; a reviewed loop whose exits/writes/effectful calls change is reported again. PL-1: no alias of a pooled buffer's storage is returned, stored or captured by a function that puts the buffer back (the Example() slice must not be overwritten by later calls). PL-2: every field of the pooled loader is assigned in reset(). PL-3: json.Document rewinds before and after Check/Len.",
 		Assume: []string{
 			"history independence beyond the enumerated once/pool/rewind objects and stability of returned AST values are not decided",
 			"the reasons in the reviewed map-range table are a reading of the pinned tree",
@@ -183,8 +183,8 @@ func init() {
 	})
 	property(&Property{
 		ID:      "C12",
-		Rules:   []string{"SW-1", "SW-3", "AL-1", "PL-1", "PL-4", "OM-lock", "SW-2", "FR-1", "VF-1", "AL-2", "GV-1", "SW-4", "NU-1"},
-		Explain: "GV-1: no library function other than a package initialiser writes a package-level variable. SW-4: no once-latch field is ever reassigned. NU-1: the name of an anonymous type is computed from the type object itself. AL-2: internal slices handed out by getters are used read-only by their clients. FR-1: no field of a long-lived object (API objects, compiled schema, constraints) and no package variable can hold a per-operation helper (validator tree, validators, example builder, collectors, checker state), so the bookkeeping of one operation cannot reach the next or a concurrent one. VF-1: a validator has no slot for other validators except its parent link: child validators are made for one value and handed to the tree. SW-2: in everything reachable from the API's load/compile/AddType steps, no object reached through a root's type table (the schema objects of added types, which every root they were added to shares) is written — taint analysis over SSA from MustType/Type/TypesList to stores and receiver-writing method calls; the allOf compiler's in-place expansion of added types is the recorded known finding K2. SW-1: no function reachable from (*Schema).validate or (*exampleBuilder).Build (VTA call graph; callbacks accounted at the call sites of higher-order helpers) stores to a field, slice element or map of a schema / constraint / AST type or to a package variable, except into objects it has just allocated — validation and example building only read the shared compiled schema. PL-1: the pooled example buffer's storage does not escape (the concurrent-Example race). OM-lock: the ordered maps hold their RWMutex around every access.",
+		Rules:   []string{"SW-1", "SW-3", "AL-1", "PL-1", "PL-4", "OM-lock", "SW-2", "FR-1", "VF-1", "AL-2", "GV-1", "SW-4", "NU-1", "FS-1"},
+		Explain: "FS-1: no long-lived object keeps a foreign (standard library / third party) object that the library changes by the methods it calls on it — write effects computed over the dependency's own SSA; the cached regex example generator whose random source advanced with every Example() was found by this reading and is fixed. GV-1: no library function other than a package initialiser writes a package-level variable. SW-4: no once-latch field is ever reassigned. NU-1: the name of an anonymous type is computed from the type object itself. AL-2: internal slices handed out by getters are used read-only by their clients. FR-1: no field of a long-lived object (API objects, compiled schema, constraints) and no package variable can hold a per-operation helper (validator tree, validators, example builder, collectors, checker state), so the bookkeeping of one operation cannot reach the next or a concurrent one. VF-1: a validator has no slot for other validators except its parent link: child validators are made for one value and handed to the tree. SW-2: in everything reachable from the API's load/compile/AddType steps, no object reached through a root's type table (the schema objects of added types, which every root they were added to shares) is written — taint analysis over SSA from MustType/Type/TypesList to stores and receiver-writing method calls; the allOf compiler's in-place expansion of added types is the recorded known finding K2. SW-1: no function reachable from (*Schema).validate or (*exampleBuilder).Build (VTA call graph; callbacks accounted at the call sites of higher-order helpers) stores to a field, slice element or map of a schema / constraint / AST type or to a package variable, except into objects it has just allocated — validation and example building only read the shared compiled schema. PL-1: the pooled example buffer's storage does not escape (the concurrent-Example race). OM-lock: the ordered maps hold their RWMutex around every access.",
 		Assume: []string{
 			"compile-time sharing of added types between root schemas (in-place allOf expansion of an added type used by two roots) is NOT covered by these rules — a known weakness of the pinned tree that the property names",
 			"exactly-once initialisation is inherited from sync.Once; races inside third-party code (reggen) are not examined; absence of deadlock is not decided",
